@@ -172,79 +172,98 @@ theorem wsFeed_lib (payload : Bytes) (idx sub : Nat) (n n' : Node)
       · rw [List.append_assoc, List.take_append_drop]; exact hacc
       · simp only [List.length_drop]; omega
 
-/-- the single raw write that carries an expedited download, against the library server -/
-theorem wsWrite_exp_lib (c : Chan (Srv × Node)) (w : WS) (idx sub : Nat) (payload : Bytes) (n' : Node)
+/-- the raw write that completes an expedited download (what was collected before plus this offer
+    make up the payload), against the library server -/
+theorem wsWrite_exp_lib (c : Chan (Srv × Node)) (w : WS) (idx sub : Nat) (payload b : Bytes) (n' : Node)
     (hidx : idx < 65536) (hsub : sub < 256) (h1 : 1 ≤ payload.length) (h4 : payload.length ≤ 4)
     (hnd : w.done = false) (hsz : w.size = some payload.length)
     (hexp : w.expHeader = some ((REQUEST_DOWNLOAD ||| EXPEDITED ||| SIZE_SPECIFIED |||
       ((4 - payload.length) <<< 2)) :: muxB idx sub))
+    (hcat : w.pending ++ b = payload)
     (hset : setData c.peer.2 (some idx) (some sub) payload true = .ok n') :
-    ∃ c', wsWrite libPeer c w payload =
-        (c', .ok ({ w with done := true, pos := w.pos + payload.length }, payload.length)) ∧
+    ∃ c', wsWrite libPeer c w b =
+        (c', .ok ({ w with done := true, pos := w.pos + b.length, pending := [] }, b.length)) ∧
       c'.peer.2 = n' ∧ c'.peer.1 = { c.peer.1 with index := some idx, sub := some sub } := by
   obtain ⟨_, _, _, fe, _, _, _⟩ := frames_eq
   have hcmd := fe payload.length (in14_mem _ h1 h4)
   have hstep := expDown_step c.peer.1 c.peer.2 n' idx sub payload hidx hsub h1 h4 hset
   have hrr := rr_lib_one c _ _ _ _ 0x60 _ hstep rfl (by decide)
-  have hn1 : ¬ payload.length < payload.length := by omega
-  have hn2 : ¬ payload.length > 4 := by omega
+  have hlen : w.pending.length + b.length = payload.length := by rw [← hcat]; simp
+  have hn1 : ¬ b.length < payload.length - w.pending.length := by omega
+  have htake : expTake w b = b := by
+    unfold expTake
+    split
+    · rfl
+    · rw [hsz]; simp only [Option.getD_some]; exact List.take_of_length_le (by omega)
+  have hn2 : (w.pending.isEmpty && decide (b.length > 4)) = false := by
+    cases hp : w.pending with
+    | nil => rw [hp] at hlen; simp at hlen ⊢; omega
+    | cons x xs => simp
   refine ⟨{ peer := ({ c.peer.1 with index := some idx, sub := some sub }, n'), queue := [],
              sent := c.sent ++ [expDownReq payload.length :: (mux idx sub ++ padTo 4 payload)] }, ?_, rfl, rfl⟩
-  simp only [wsWrite, hnd, Bool.false_eq_true, if_false, hexp, hsz, Option.getD_some, hn1, hn2, hcmd, muxB_eq,
-    List.cons_append]
+  simp only [wsWrite, hnd, Bool.false_eq_true, if_false, hexp, hsz, Option.getD_some, hn1, hn2, htake, hcat, hcmd,
+    muxB_eq, List.cons_append]
   rw [hrr]
   simp [RESPONSE_DOWNLOAD]
 
 theorem wsFeed_exp_lib (idx sub : Nat) (payload : Bytes) (n n' : Node) (hidx : idx < 65536) (hsub : sub < 256)
     (h1 : 1 ≤ payload.length) (h4 : payload.length ≤ 4)
     (hset : setData n (some idx) (some sub) payload true = .ok n') :
-    ∀ (offers : List Nat) (fuel : Nat) (c : Chan (Srv × Node)) (w : WS),
+    ∀ (fuel : Nat) (c : Chan (Srv × Node)) (w : WS) (rem : Bytes) (offers : List Nat),
       c.peer.2 = n → SrvWF c.peer.1 → w.done = false → w.size = some payload.length →
       w.expHeader = some ((REQUEST_DOWNLOAD ||| EXPEDITED ||| SIZE_SPECIFIED |||
         ((4 - payload.length) <<< 2)) :: muxB idx sub) →
-      offers.length + 2 ≤ fuel →
-      ∃ c' w', wsFeed libPeer fuel c w payload offers = (c', .ok w') ∧ w'.done = true ∧
+      w.pending ++ rem = payload → rem ≠ [] → rem.length < fuel →
+      ∃ c' w', wsFeed libPeer fuel c w rem offers = (c', .ok w') ∧ w'.done = true ∧
         c'.peer.2 = n' ∧ SrvWF c'.peer.1 := by
-  intro offers
-  induction offers with
-  | nil =>
-    intro fuel c w hn hwf hnd hsz hexp hf
-    obtain ⟨f, rfl⟩ : ∃ f, fuel = f + 2 := ⟨fuel - 2, by omega⟩
-    have hne : payload.isEmpty = false := by
-      cases payload with
-      | nil => simp at h1
-      | cons x xs => rfl
-    obtain ⟨c1, hw, hn1, hs1⟩ := wsWrite_exp_lib c w idx sub payload n' hidx hsub h1 h4 hnd hsz hexp (by rw [hn]; exact hset)
-    unfold wsFeed
-    simp only [hne, Bool.false_eq_true, if_false, nextOffer, List.take_length]
-    rw [hw]
-    simp only [List.drop_length]
-    unfold wsFeed
-    simp only [List.isEmpty_nil, if_true]
-    exact ⟨_, _, rfl, rfl, hn1, by rw [hs1]; exact hwf⟩
-  | cons k ks ih =>
-    intro fuel c w hn hwf hnd hsz hexp hf
-    obtain ⟨f, rfl⟩ : ∃ f, fuel = f + 2 := ⟨fuel - 2, by omega⟩
-    have hne : payload.isEmpty = false := by
-      cases payload with
-      | nil => simp at h1
+  intro fuel
+  induction fuel with
+  | zero => intro c w rem offers _ _ _ _ _ _ _ hf; omega
+  | succ fuel ih =>
+    intro c w rem offers hn hwf hnd hsz hexp hcat hne hf
+    have hre : rem.isEmpty = false := by
+      cases rem with
+      | nil => exact absurd rfl hne
       | cons x xs => rfl
     unfold wsFeed
-    simp only [hne, Bool.false_eq_true, if_false, nextOffer]
-    by_cases hk : max k 1 < payload.length
-    · have hlt : (payload.take (max k 1)).length < payload.length := by
-        simp only [List.length_take]; omega
-      have hw : wsWrite libPeer c w (payload.take (max k 1)) = (c, .ok (w, 0)) := by
+    simp only [hre, Bool.false_eq_true, if_false]
+    generalize hk : nextOffer offers rem.length = k
+    have hk1 : 1 ≤ k := by
+      have hrl : 1 ≤ rem.length := by
+        cases rem with
+        | nil => exact absurd rfl hne
+        | cons x xs => simp
+      cases offers with
+      | nil => simp [nextOffer] at hk; omega
+      | cons a as => simp [nextOffer] at hk; omega
+    have hplen : w.pending.length + rem.length = payload.length := by rw [← hcat]; simp
+    by_cases hshort : k < rem.length
+    · -- the offer does not complete the payload: collected, nothing sent
+      have hbl : (rem.take k).length = k := by simp only [List.length_take]; omega
+      have hlt : (rem.take k).length < payload.length - w.pending.length := by rw [hbl]; omega
+      have hw : wsWrite libPeer c w (rem.take k) =
+          (c, .ok ({ w with pending := w.pending ++ rem.take k, pos := w.pos + (rem.take k).length },
+                   (rem.take k).length)) := by
         simp only [wsWrite, hnd, Bool.false_eq_true, if_false, hexp, hsz, Option.getD_some, hlt, if_true]
       rw [hw]
-      simp only [List.drop_zero, List.tail_cons]
-      exact ih (f + 1) c w hn hwf hnd hsz hexp (by simp only [List.length_cons] at hf; omega)
-    · have htk : payload.take (max k 1) = payload := List.take_of_length_le (by omega)
-      obtain ⟨c1, hw, hn1, hs1⟩ := wsWrite_exp_lib c w idx sub payload n' hidx hsub h1 h4 hnd hsz hexp (by rw [hn]; exact hset)
+      simp only [hbl]
+      have hdne : rem.drop k ≠ [] := by
+        intro h
+        have := congrArg List.length h
+        simp only [List.length_drop, List.length_nil] at this
+        omega
+      exact ih c { w with pending := w.pending ++ rem.take k, pos := w.pos + k } (rem.drop k) offers.tail
+        hn hwf hnd hsz hexp (by simp only [List.append_assoc, List.take_append_drop]; exact hcat) hdne
+        (by simp only [List.length_drop]; omega)
+    · have htk : rem.take k = rem := List.take_of_length_le (by omega)
+      obtain ⟨c1, hw, hn1, hs1⟩ := wsWrite_exp_lib c w idx sub payload rem n' hidx hsub h1 h4 hnd hsz hexp hcat
+        (by rw [hn]; exact hset)
       rw [htk, hw]
       simp only [List.drop_length]
-      unfold wsFeed
-      simp only [List.isEmpty_nil, if_true]
+      have hfin : ∀ (f : Nat) (c : Chan (Srv × Node)) (w : WS) (o : List Nat),
+          wsFeed libPeer f c w [] o = (c, .ok w) := by
+        intro f c w o; cases f <;> simp [wsFeed]
+      rw [hfin]
       exact ⟨_, _, rfl, rfl, hn1, by rw [hs1]; exact hwf⟩
 
 /-- **A download through the library client to the library server stores exactly the payload.**
@@ -302,13 +321,15 @@ theorem download_lib (c : Chan (Srv × Node)) (idx sub : Nat) (payload : Bytes) 
       simp only [isSegmented, Bool.or_eq_false_iff, decide_eq_false_iff_not] at hnseg
       omega
     simp only [wsInit, hnseg, Bool.false_eq_true, if_false, Option.getD_some]
+    have hpne : payload ≠ [] := by
+      intro h; rw [h] at h14; simp at h14
     obtain ⟨c2, w2, hfeed, hd2, hn2, hwf2⟩ :=
-      wsFeed_exp_lib idx sub payload c.peer.2 n' hidx hsub h14.1 h14.2 hset offers
+      wsFeed_exp_lib idx sub payload c.peer.2 n' hidx hsub h14.1 h14.2 hset
         (2 * payload.length + offers.length + 2) c
         { size := some payload.length, pos := 0, toggle := 0,
           expHeader := some ((REQUEST_DOWNLOAD ||| EXPEDITED ||| SIZE_SPECIFIED |||
             ((4 - payload.length) <<< 2)) :: muxB idx sub), done := false }
-        rfl hwf rfl rfl rfl (by omega)
+        payload offers rfl hwf rfl rfl rfl rfl hpne (by omega)
     rw [hfeed]
     simp only [wsClose, hd2, Bool.not_true, Bool.false_and, Bool.false_eq_true, if_false]
     exact ⟨c2, rfl, hn2, hwf2⟩
